@@ -1020,7 +1020,7 @@ mod v_socket_dns {
     }
 
     // (8 bytes, and 6 bytes followed by eq_names(copy, original): out of memory at 8 GB after 350 s)
-    // @harness props=C19,C07,C03 cfg=KN tier=q to=900 mem=8 unwind=8 opts=term covers=3 funcs=dns::copy_name;wire::dns::Packet::parse_name bounds=message_of_0..=6_fully_symbolic_bytes;_name_at_any_offset_copied_into_a_64-byte_name_buffer;_unwind_8_=_N+2
+    // @harness props=C19,C07,C03:t cfg=KN tier=q to=900 mem=8 unwind=8 opts=term covers=3 funcs=dns::copy_name;wire::dns::Packet::parse_name bounds=message_of_0..=6_fully_symbolic_bytes;_name_at_any_offset_copied_into_a_64-byte_name_buffer;_unwind_8_=_N+2
     #[kani::proof]
     pub(crate) fn dns_name_copy_free() {
         const N: usize = 6;
